@@ -9,7 +9,7 @@ PROP = "C13"
 
 
 def body():
-    A.aggsender_check(PROP, model_cfgs=["AggSenderC13.cfg", "AggSenderC13b.cfg", "AggSenderFEPC13.cfg"], counterexamples=[("AggSenderC13F4.cfg", "F4Free"), ("AggSenderC13v1.cfg", "C02")], gen_cfgs=["AggSenderGenC13.cfg", "AggSenderGenC13b.cfg", "AggSenderGenFEPC13.cfg"], quick_n=250, thorough_n=5000, invs=["C02", "F4Free", "NeverRefuses"], storefaults=True)
+    A.aggsender_check(PROP, model_cfgs=["AggSenderC13.cfg", "AggSenderC13b.cfg", "AggSenderFEPC13.cfg", "AggSenderC13cut.cfg"], counterexamples=[("AggSenderC13F4.cfg", "F4Free"), ("AggSenderC13v1.cfg", "C02")], gen_cfgs=["AggSenderGenC13.cfg", "AggSenderGenC13b.cfg", "AggSenderGenFEPC13.cfg", "AggSenderGenC13cut.cfg"], quick_n=250, thorough_n=5000, invs=["C02", "F4Free", "NeverRefuses"], storefaults=True)
 
 
 if __name__ == "__main__":
